@@ -197,12 +197,17 @@ theorem inv_step {tbl : List (α × α)} (hinj : TableInj tbl) {s s' : St α} {l
       split
       · next l hl =>
         rw [hl] at hen
-        simp only [Bool.and_eq_true, beq_iff_eq, Option.isNone_iff_eq_none, lockFree, Bool.not_true, Bool.false_or] at hen
-        obtain ⟨⟨hset, hlock⟩, hfound⟩ := hen
+        simp only [Bool.and_eq_true, beq_iff_eq, Option.isNone_iff_eq_none, lockFree, Bool.not_true, Bool.false_or,
+          Bool.or_eq_true] at hen
+        obtain ⟨⟨hset, hlock'⟩, hfound⟩ := hen
         unfold rxMatchF
         simp only [hfound, if_true]
         split
         · next e hm =>
+          have hlock : s.txTest = none := by
+            rcases hlock' with h | h
+            · simp [matchEntry, h] at hm
+            · exact h
           unfold rxDeliver
           refine ⟨?_, inv.ans, ?_, ?_, ?_, ?_⟩
           · intro p hp; exact inv.keys p (mem_eraseKey hp)
